@@ -131,6 +131,11 @@ Definition copy_check (tol : Q) (orig : list obs) (orig_tref : option XQ) (pi : 
   | Some a, Some b => x_close tol a b
   | _, _ => false
   end.
+(* data[key] on covariance data (key a slice, boolean mask or index array selecting the rows sel, increasing): times and
+   velocities of the selected rows, and the sub-matrix of the selected rows AND columns *)
+Definition slice_check_cov (t rv : list XQ) (cov : list (list XQ)) (sel : list nat) (st srv : list XQ) (scov : list (list XQ)) : bool :=
+  Corr.list_eqb x_ideqb (gather XNaN sel t) st && Corr.list_eqb x_ideqb (gather XNaN sel rv) srv &&
+  Corr.list_eqb (Corr.list_eqb x_ideqb) (gather2 sel cov) scov.
 (* data[sel]: exactly the selected rows of the original, paired as before, time-sorted *)
 Definition slice_check (orig : list obs) (sel : list nat) (pi : list nat) (out : list obs) : bool :=
   enumerates pi sel && Corr.list_eqb obs_eqb (gather obs_d pi orig) out && sorted_t out.
